@@ -125,6 +125,39 @@ func TestC06_KeyAndIndexAgreement(t *testing.T) {
 			return true
 		}
 		tampered := tamper(m1, "m1")
+		// Packets that a pending machine rejects while staying usable (too short for a header, another
+		// subtype, a cut-off copy of the genuine message) may arrive before the genuine one; a session
+		// that still completes must agree on everything below, the message count included.
+		rejected := 0
+		junk := func(m *Machine, genuine []byte, tag string) bool {
+			n := rapid.SampledFrom([]int{0, 0, 0, 1, 2, 3}).Draw(rt, tag+".nRejected")
+			for i := 0; i < n; i++ {
+				var pkt []byte
+				switch rapid.IntRange(0, 2).Draw(rt, tag+".rejKind") {
+				case 0:
+					pkt = rapid.SliceOfN(rapid.Byte(), 0, 15).Draw(rt, tag+".short")
+				case 1:
+					pkt = hsgClone(genuine)
+					pkt[1] = rapid.ByteRange(1, 255).Draw(rt, tag+".subtype")
+				default:
+					pkt = hsgClone(genuine[:rapid.IntRange(16, 16+z.dhLen-1).Draw(rt, tag+".cut")])
+				}
+				out, r, err := m.ProcessPacket(nil, pkt)
+				if err == nil || r != nil || out != nil {
+					rt.Fatalf("%s: a %d-byte junk packet (%x) was not rejected: out=%v result=%v err=%v", label, len(pkt), pkt, out != nil, r != nil, err)
+				}
+				if m.Failed() {
+					return false
+				}
+				rejected++
+			}
+			return true
+		}
+		if !junk(rm, m1, "m1") {
+			c06NotCompleted++
+			vk.Case("C06", "nc/"+label, false, "not-completed/responder-failed-on-junk")
+			return
+		}
 		m2, rr, err := rm.ProcessPacket(hsgClone(pre), m1)
 		if err != nil || rr == nil {
 			c06NotCompleted++
@@ -138,6 +171,14 @@ func TestC06_KeyAndIndexAgreement(t *testing.T) {
 		tampered = tamper(m2, "m2") || tampered
 		if tampered {
 			vk.Label("C06", "header-rewritten-in-flight")
+		}
+		if !junk(im, m2, "m2") {
+			c06NotCompleted++
+			vk.Case("C06", "nc/"+label, false, "not-completed/initiator-failed-on-junk")
+			return
+		}
+		if rejected > 0 {
+			vk.Label("C06", "rejected-packets-before-genuine")
 		}
 		_, ir, err := im.ProcessPacket(nil, m2)
 		if err != nil || ir == nil {
@@ -169,7 +210,7 @@ func TestC06_KeyAndIndexAgreement(t *testing.T) {
 			rt.Fatalf("%s: indexes not mirrored: init(local=%d remote=%d) resp(local=%d remote=%d)", label, ir.LocalIndex, ir.RemoteIndex, rr.LocalIndex, rr.RemoteIndex)
 		}
 		if ir.MessageIndex != rr.MessageIndex {
-			rt.Fatalf("%s: message counts differ: %d vs %d", label, ir.MessageIndex, rr.MessageIndex)
+			rt.Fatalf("%s: message counts differ: %d vs %d (%d packets were rejected by still-usable machines before the genuine ones)", label, ir.MessageIndex, rr.MessageIndex, rejected)
 		}
 		if !ir.Initiator || rr.Initiator {
 			rt.Fatalf("%s: Initiator flags wrong", label)
